@@ -79,6 +79,137 @@ spec fn filter_children(items: Seq<CirTreeNodeNonLeaf>, q: u32, qs: u32, qe: u32
     }
 }
 
+// the per-node filter, with its contracts, exactly as verified in unit rt_nodes (same include file)
+// ---- shared by rt_nodes and rt_search (included): CirTreeNodeIterator, compare_position, overlaps,
+// ---- nodes_overlapping with their contracts.  Needs spec.rs and the three structs before it.
+// iterator -> Vec: the two generic parameters lose their `Iterator` bound and default; the unit
+// instantiates them with Vec<CirTreeNodeLeaf> / Vec<CirTreeNodeNonLeaf> (drops laziness only).
+pub enum CirTreeNodeIterator<
+    L,
+    N,
+> {
+    Leaf(L),
+    NonLeaf(N),
+}
+
+fn compare_position(chrom1: u32, chrom1_base: u32, chrom2: u32, chrom2_base: u32) -> (r: i8)
+    ensures
+        
+        r == -1 || r == 0 || r == 1,
+        
+        r == -1 <==> pos_lt((chrom1, chrom1_base), (chrom2, chrom2_base)),
+        
+        r == 0 <==> (chrom1 == chrom2 && chrom1_base == chrom2_base),
+        
+        r == 1 <==> pos_lt((chrom2, chrom2_base), (chrom1, chrom1_base)),
+{
+    if chrom1 < chrom2 {
+        -1
+    } else if chrom1 > chrom2 {
+        1
+    } else if chrom1_base < chrom2_base {
+        -1
+    } else if chrom1_base > chrom2_base {
+        1
+    } else {
+        0
+    }
+}
+
+fn overlaps(
+    chromq: u32,
+    chromq_start: u32,
+    chromq_end: u32,
+    chromb1: u32,
+    chromb1_start: u32,
+    chromb2: u32,
+    chromb2_end: u32,
+) -> (r: bool)
+    ensures
+        
+        r == overlaps_spec(chromq, chromq_start, chromq_end, chromb1, chromb1_start, chromb2, chromb2_end),
+{
+    compare_position(chromq, chromq_start, chromb2, chromb2_end) <= 0
+        && compare_position(chromq, chromq_end, chromb1, chromb1_start) >= 0
+}
+
+// nodes_overlapping: iterator parameters -> Vec (R11, drops laziness only); SmallVec<[T; 4]> -> Vec<T>,
+// smallvec![] -> Vec::new(); `for child in iter` -> index loop (R7).
+fn nodes_overlapping(
+    iter: CirTreeNodeIterator<Vec<CirTreeNodeLeaf>, Vec<CirTreeNodeNonLeaf>>,
+    chrom_ix: u32,
+    start: u32,
+    end: u32,
+) -> (r: (Vec<u64>, Vec<Block>))
+    ensures
+        
+        iter matches CirTreeNodeIterator::Leaf(items) ==>
+            r.1@ == filter_blocks(items@, chrom_ix, start, end, items@.len() as int),
+        
+        iter matches CirTreeNodeIterator::Leaf(items) ==> r.0@.len() == 0,
+        
+        iter matches CirTreeNodeIterator::NonLeaf(items) ==>
+            r.0@ == filter_children(items@, chrom_ix, start, end, items@.len() as int),
+        
+        iter matches CirTreeNodeIterator::NonLeaf(items) ==> r.1@.len() == 0,
+{
+    match iter {
+        CirTreeNodeIterator::Leaf(iter) => {
+            let mut blocks: Vec<_> = Vec::new();
+            for i__1 in 0..iter.len() 
+                invariant
+                    
+                    blocks@ == filter_blocks(iter@, chrom_ix, start, end, i__1 as int),
+                decreases
+                    
+                    iter.len() - i__1,
+{ let child = &iter[i__1];
+                let block_overlaps = overlaps(
+                    chrom_ix,
+                    start,
+                    end,
+                    child.start_chrom_ix,
+                    child.start_base,
+                    child.end_chrom_ix,
+                    child.end_base,
+                );
+                if block_overlaps {
+                    blocks.push(Block {
+                        offset: child.data_offset,
+                        size: child.data_size,
+                    });
+                }
+            }
+            (Vec::new(), blocks)
+        }
+        CirTreeNodeIterator::NonLeaf(iter) => {
+            let mut new_childblocks: Vec<_> = Vec::new();
+            for i__2 in 0..iter.len() 
+                invariant
+                    
+                    new_childblocks@ == filter_children(iter@, chrom_ix, start, end, i__2 as int),
+                decreases
+                    
+                    iter.len() - i__2,
+{ let child = &iter[i__2];
+                let block_overlaps = overlaps(
+                    chrom_ix,
+                    start,
+                    end,
+                    child.start_chrom_ix,
+                    child.start_base,
+                    child.end_chrom_ix,
+                    child.end_base,
+                );
+                if block_overlaps {
+                    new_childblocks.push(child.node_offset);
+                }
+            }
+            (new_childblocks, Vec::new())
+        }
+    }
+}
+
 // ---------------- shims (assumed; listed in NOTES.md) ----------------
 /// shim for std::io::Error (opaque)
 pub struct IoError { _p: u8 }
@@ -115,14 +246,35 @@ impl VIndex {
     pub uninterp spec fn tree(&self) -> Map<u64, Node>;
     pub uninterp spec fn ht(&self) -> Map<u64, nat>;
     pub uninterp spec fn log(&self) -> Seq<(u64, bool)>;
-
-// ASSUMED contract of the reader call.  The real body for plain readers (bbiread.rs, impl<S: SeekableRead>
-// BBIFileRead for S, lines 520-535) is `read_node(self, node_offset, endianness)` followed by
-// `nodes_overlapping(iter, chrom_ix, start, end)`, with an Err of read_node passed on.  So: may fail at any
-// time (I/O); if it succeeds and node_offset is a node of the ghost tree, the result is nodes_overlapping
-// (contract: unit rt_nodes) of that node.  Nothing is promised for offsets outside the ghost tree.
-// The file content does not change.  Signature cut from /repo (body skipped).
+}
+/// the ghost node an (iterator -> Vec) CirTreeNodeIterator stands for
+spec fn node_of(it: CirTreeNodeIterator<Vec<CirTreeNodeLeaf>, Vec<CirTreeNodeNonLeaf>>) -> Node {
+    match it {
+        CirTreeNodeIterator::Leaf(v) => Node::Leaf(v@),
+        CirTreeNodeIterator::NonLeaf(v) => Node::NonLeaf(v@),
+    }
+}
+// ASSUMED contract of `read_node` (signature cut from /repo, body skipped; the decoding itself is the
+// business of units rt_readnode / rt_items): may fail at any time (I/O); if it succeeds and node_offset
+// is a node of the ghost tree, it yields that node's items in stored order.  Nothing is promised for
+// offsets outside the ghost tree.  The file content does not change; one log entry per call.
 #[verifier::external_body]
+fn read_node(
+    file: &mut VIndex,
+    node_offset: u64,
+    endianness: Endianness,
+) -> (r: Result<CirTreeNodeIterator<Vec<CirTreeNodeLeaf>, Vec<CirTreeNodeNonLeaf>>, IoError>)
+    ensures
+        final(file).tree() == old(file).tree(),
+        final(file).ht() == old(file).ht(),
+        final(file).log() == old(file).log().push((node_offset, r is Ok)),
+        r is Ok && old(file).tree().contains_key(node_offset) ==> node_of(r->Ok_0) == old(file).tree()[node_offset],
+{ unimplemented!() }
+
+impl VIndex {
+// The reader call of the search: the real `blocks_for_cir_tree_node` of plain readers
+// (`impl<S: SeekableRead> BBIFileRead for S`), verified here: read_node, then nodes_overlapping.
+// `Self = S` -> VIndex (R11, by placing the method in `impl VIndex`).
 fn blocks_for_cir_tree_node(
         &mut self,
         endianness: Endianness,
@@ -132,14 +284,24 @@ fn blocks_for_cir_tree_node(
         end: u32,
     ) -> (r: Result<(Vec<u64>, Vec<Block>), IoError>)
         ensures
+            
             final(self).tree() == old(self).tree(),
             final(self).ht() == old(self).ht(),
+            
             final(self).log() == old(self).log().push((node_offset, r is Ok)),
+            
             r is Ok && old(self).tree().contains_key(node_offset) ==> {
                 &&& r->Ok_0.0@ == node_kids(old(self).tree()[node_offset], chrom_ix, start, end)
                 &&& r->Ok_0.1@ == node_blocks(old(self).tree()[node_offset], chrom_ix, start, end)
             },
-{ unimplemented!() }
+{
+        let iter = match read_node(self, node_offset, endianness) {
+            Ok(d) => d,
+            Err(e) => return Err(e),
+        };
+
+        Ok(nodes_overlapping(iter, chrom_ix, start, end))
+    }
 }
 
 /// verified stand-in for `Vec::extend(Vec)` (appends all elements in order)
@@ -308,6 +470,7 @@ proof fn lemma_seq_concat(c: Ctx, a: Seq<u64>, b: Seq<u64>)
 proof fn lemma_step(c: Ctx, wl: Seq<u64>)
     requires tree_wf(c), all_stored(c, wl), wl.len() > 0,
     ensures
+        
         dfs_seq(c, wl) == blocks_of(c, wl[0]) + dfs_seq(c, kids_of(c, wl[0]) + wl.drop_first()),
         visit_seq(c, wl) == seq![wl[0]] + visit_seq(c, kids_of(c, wl[0]) + wl.drop_first()),
         all_stored(c, kids_of(c, wl[0]) + wl.drop_first()),
@@ -334,10 +497,210 @@ proof fn lemma_single(c: Ctx, at: u64)
     assert(dfs_seq(c, seq![at]) =~= dfs(c, at) + dfs_seq(c, Seq::<u64>::empty()));
     assert(visit_seq(c, seq![at]) =~= visit(c, at) + visit_seq(c, Seq::<u64>::empty()));
 }
-/// every node the search reads is read at least... `visit` is never empty, so the measure below is positive
-proof fn lemma_visit_nonempty(c: Ctx, off: u64)
-    ensures visit(c, off).len() >= 1,
+// ---------------- search == linear scan, given span coverage (glue to rt_build / C04 rtree_span) ----------------
+spec fn leaf_in(x: CirTreeNodeLeaf, lo: (u32, u32), hi: (u32, u32)) -> bool {
+    pos_le(lo, (x.start_chrom_ix, x.start_base)) && pos_le((x.end_chrom_ix, x.end_base), hi)
+}
+spec fn nonleaf_in(x: CirTreeNodeNonLeaf, lo: (u32, u32), hi: (u32, u32)) -> bool {
+    pos_le(lo, (x.start_chrom_ix, x.start_base)) && pos_le((x.end_chrom_ix, x.end_base), hi)
+}
+spec fn items_within(xs: Seq<CirTreeNodeLeaf>, lo: (u32, u32), hi: (u32, u32)) -> bool {
+    forall|j: int| 0 <= j < xs.len() ==> leaf_in(#[trigger] xs[j], lo, hi)
+}
+/// every item stored in node n has its span inside [lo, hi]
+spec fn node_within(n: Node, lo: (u32, u32), hi: (u32, u32)) -> bool {
+    match n {
+        Node::Leaf(items) => items_within(items, lo, hi),
+        Node::NonLeaf(items) => forall|j: int| 0 <= j < items.len() ==> nonleaf_in(#[trigger] items[j], lo, hi),
+    }
+}
+/// span coverage, one level at a time (what the builder must establish: C04 `rtree_span`): the span
+/// recorded for a child pointer covers the span of every item stored in the child node.
+spec fn span_cover(c: Ctx) -> bool {
+    forall|off: u64, i: int| c.t.contains_key(off) && c.t[off] is NonLeaf && 0 <= i < c.t[off]->NonLeaf_0.len()
+        ==> node_within(c.t[#[trigger] kid_off(c, off, i)],
+                (c.t[off]->NonLeaf_0[i].start_chrom_ix, c.t[off]->NonLeaf_0[i].start_base),
+                (c.t[off]->NonLeaf_0[i].end_chrom_ix, c.t[off]->NonLeaf_0[i].end_base))
+}
+/// all leaf items below `off`, unfiltered, in pre-order ( = what a linear scan over the blocks sees)
+spec fn all_items(c: Ctx, off: u64) -> Seq<CirTreeNodeLeaf>
+    decreases c.ht[off], 1nat, 0nat
 {
+    if !c.t.contains_key(off) { Seq::empty() }
+    else {
+        match c.t[off] {
+            Node::Leaf(items) => items,
+            Node::NonLeaf(items) => all_items_pref(c, items, items.len() as int, c.ht[off]),
+        }
+    }
+}
+/// ... below the first n child pointers of a non-leaf node (`bound` only for well-foundedness)
+spec fn all_items_pref(c: Ctx, items: Seq<CirTreeNodeNonLeaf>, n: int, bound: nat) -> Seq<CirTreeNodeLeaf>
+    decreases bound, 0nat, n
+{
+    if n <= 0 { Seq::empty() }
+    else {
+        all_items_pref(c, items, n - 1, bound)
+            + (if c.ht[items[n - 1].node_offset] < bound { all_items(c, items[n - 1].node_offset) } else { Seq::empty() })
+    }
+}
+/// the linear scan: keep the blocks of the items that intersect the query, in order
+spec fn scan(c: Ctx, xs: Seq<CirTreeNodeLeaf>) -> Seq<Block> { filter_blocks(xs, c.q, c.qs, c.qe, xs.len() as int) }
+
+proof fn lemma_filter_blocks_concat(a: Seq<CirTreeNodeLeaf>, b: Seq<CirTreeNodeLeaf>, q: u32, qs: u32, qe: u32, m: int)
+    requires 0 <= m <= b.len(),
+    ensures
+        filter_blocks(a + b, q, qs, qe, a.len() + m) == filter_blocks(a, q, qs, qe, a.len() as int) + filter_blocks(b, q, qs, qe, m),
+    decreases m,
+{
+    if m == 0 {
+        lemma_filter_blocks_prefix(a, b, q, qs, qe, a.len() as int);
+        assert(filter_blocks(a, q, qs, qe, a.len() as int) + filter_blocks(b, q, qs, qe, 0) =~= filter_blocks(a, q, qs, qe, a.len() as int));
+    } else {
+        lemma_filter_blocks_concat(a, b, q, qs, qe, m - 1);
+        assert((a + b)[a.len() + m - 1] == b[m - 1]);
+        let l = filter_blocks(a, q, qs, qe, a.len() as int);
+        let r = filter_blocks(b, q, qs, qe, m - 1);
+        if leaf_hit(b[m - 1], q, qs, qe) {
+            assert((l + r).push(leaf_block(b[m - 1])) =~= l + r.push(leaf_block(b[m - 1])));
+        }
+    }
+}
+proof fn lemma_filter_blocks_prefix(a: Seq<CirTreeNodeLeaf>, b: Seq<CirTreeNodeLeaf>, q: u32, qs: u32, qe: u32, m: int)
+    requires 0 <= m <= a.len(),
+    ensures filter_blocks(a + b, q, qs, qe, m) == filter_blocks(a, q, qs, qe, m),
+    decreases m,
+{
+    if m > 0 {
+        lemma_filter_blocks_prefix(a, b, q, qs, qe, m - 1);
+        assert((a + b)[m - 1] == a[m - 1]);
+    }
+}
+proof fn lemma_scan_concat(c: Ctx, a: Seq<CirTreeNodeLeaf>, b: Seq<CirTreeNodeLeaf>)
+    ensures scan(c, a + b) == scan(c, a) + scan(c, b),
+{
+    lemma_filter_blocks_concat(a, b, c.q, c.qs, c.qe, b.len() as int);
+}
+/// items inside a span that the query does not intersect are all rejected (contrapositive of nesting)
+proof fn lemma_scan_none(c: Ctx, xs: Seq<CirTreeNodeLeaf>, lo: (u32, u32), hi: (u32, u32), m: int)
+    requires items_within(xs, lo, hi), !overlaps_spec(c.q, c.qs, c.qe, lo.0, lo.1, hi.0, hi.1), 0 <= m <= xs.len(),
+    ensures filter_blocks(xs, c.q, c.qs, c.qe, m) == Seq::<Block>::empty(),
+    decreases m,
+{
+    if m > 0 {
+        lemma_scan_none(c, xs, lo, hi, m - 1);
+        assert(leaf_in(xs[m - 1], lo, hi));
+    }
+}
+proof fn lemma_within(c: Ctx, off: u64, lo: (u32, u32), hi: (u32, u32))
+    requires tree_wf(c), span_cover(c), c.t.contains_key(off), node_within(c.t[off], lo, hi),
+    
+    ensures items_within(all_items(c, off), lo, hi),
+    decreases c.ht[off], 1nat, 0nat,
+{
+    match c.t[off] {
+        Node::Leaf(items) => {}
+        Node::NonLeaf(items) => { lemma_within_pref(c, off, items.len() as int, lo, hi); }
+    }
+}
+proof fn lemma_within_pref(c: Ctx, off: u64, n: int, lo: (u32, u32), hi: (u32, u32))
+    requires tree_wf(c), span_cover(c), c.t.contains_key(off), c.t[off] is NonLeaf, node_within(c.t[off], lo, hi),
+        0 <= n <= c.t[off]->NonLeaf_0.len(),
+    ensures items_within(all_items_pref(c, c.t[off]->NonLeaf_0, n, c.ht[off]), lo, hi),
+    decreases c.ht[off], 0nat, n,
+{
+    let items = c.t[off]->NonLeaf_0;
+    if n > 0 {
+        lemma_within_pref(c, off, n - 1, lo, hi);
+        let it = items[n - 1];
+        let k = kid_off(c, off, n - 1);
+        assert(k == it.node_offset);
+        assert(c.t.contains_key(k) && c.ht[k] < c.ht[off]);
+        assert(nonleaf_in(it, lo, hi));
+        let ilo = (it.start_chrom_ix, it.start_base);
+        let ihi = (it.end_chrom_ix, it.end_base);
+        assert(node_within(c.t[k], ilo, ihi));
+        // transitivity: inside the child's recorded span ==> inside [lo, hi]
+        match c.t[k] {
+            Node::Leaf(xs) => {
+                assert forall|j: int| 0 <= j < xs.len() implies leaf_in(#[trigger] xs[j], lo, hi) by { assert(leaf_in(xs[j], ilo, ihi)); }
+            }
+            Node::NonLeaf(xs) => {
+                assert forall|j: int| 0 <= j < xs.len() implies nonleaf_in(#[trigger] xs[j], lo, hi) by { assert(nonleaf_in(xs[j], ilo, ihi)); }
+            }
+        }
+        lemma_within(c, k, lo, hi);
+        let p = all_items_pref(c, items, n - 1, c.ht[off]);
+        let x = all_items(c, k);
+        assert forall|j: int| 0 <= j < (p + x).len() implies leaf_in(#[trigger] (p + x)[j], lo, hi) by {
+            if j < p.len() { assert((p + x)[j] == p[j]); } else { assert((p + x)[j] == x[j - p.len()]); }
+        }
+    }
+}
+/// C05: "finds every block whose span intersects the query and returns the blocks in file order,
+/// exactly as a linear scan over all blocks would" -- for every well-founded tree with span coverage.
+proof fn lemma_dfs_is_scan(c: Ctx, off: u64)
+    requires tree_wf(c), span_cover(c), c.t.contains_key(off),
+    
+    ensures dfs(c, off) == scan(c, all_items(c, off)),
+    decreases c.ht[off], 1nat, 0nat,
+{
+    match c.t[off] {
+        Node::Leaf(items) => {
+            assert(kids_of(c, off) =~= Seq::<u64>::empty());
+            assert(dfs(c, off) =~= blocks_of(c, off));
+        }
+        Node::NonLeaf(items) => {
+            lemma_dfs_is_scan_pref(c, off, items.len() as int);
+            lemma_kids_lower(c, off);
+            lemma_list_is_seq(c, kids_of(c, off), c.ht[off]);
+            assert(dfs(c, off) =~= dfs_seq(c, kids_of(c, off)));
+        }
+    }
+}
+proof fn lemma_dfs_is_scan_pref(c: Ctx, off: u64, n: int)
+    requires tree_wf(c), span_cover(c), c.t.contains_key(off), c.t[off] is NonLeaf, 0 <= n <= c.t[off]->NonLeaf_0.len(),
+    ensures
+        dfs_seq(c, filter_children(c.t[off]->NonLeaf_0, c.q, c.qs, c.qe, n))
+            == scan(c, all_items_pref(c, c.t[off]->NonLeaf_0, n, c.ht[off])),
+    decreases c.ht[off], 0nat, n,
+{
+    let items = c.t[off]->NonLeaf_0;
+    if n > 0 {
+        lemma_dfs_is_scan_pref(c, off, n - 1);
+        let it = items[n - 1];
+        let k = kid_off(c, off, n - 1);
+        assert(k == it.node_offset);
+        assert(c.t.contains_key(k) && c.ht[k] < c.ht[off]);
+        let prev = filter_children(items, c.q, c.qs, c.qe, n - 1);
+        let p = all_items_pref(c, items, n - 1, c.ht[off]);
+        let x = all_items(c, k);
+        lemma_scan_concat(c, p, x);
+        if nonleaf_hit(it, c.q, c.qs, c.qe) {
+            lemma_dfs_is_scan(c, k);
+            lemma_seq_concat(c, prev, seq![k]);
+            lemma_single(c, k);
+            assert(prev.push(k) =~= prev + seq![k]);
+        } else {
+            let ilo = (it.start_chrom_ix, it.start_base);
+            let ihi = (it.end_chrom_ix, it.end_base);
+            assert(node_within(c.t[k], ilo, ihi));
+            lemma_within(c, k, ilo, ihi);
+            lemma_scan_none(c, x, ilo, ihi, x.len() as int);
+            assert(scan(c, p) + scan(c, x) =~= scan(c, p));
+        }
+    } else {
+        assert(scan(c, Seq::<CirTreeNodeLeaf>::empty()) =~= Seq::<Block>::empty());
+    }
+}
+proof fn theorem_search_equals_linear_scan(c: Ctx, root: u64)
+    requires
+        tree_wf(c), span_cover(c), c.t.contains_key(root),
+    ensures
+        
+        dfs(c, root) == filter_blocks(all_items(c, root), c.q, c.qs, c.qe, all_items(c, root).len() as int),
+{
+    lemma_dfs_is_scan(c, root);
 }
 
 // CirTreeBlockSearchIter: reader type parameter R -> VIndex (R11).
@@ -456,7 +819,7 @@ fn search_cir_tree_inner(
 
     proof {
         lemma_single(c, at);
-        assert(remaining_childblocks@ =~= seq![at]);
+        assert(remaining_childblocks@ =~= seq![at]); 
         assert(ok_reads(done) =~= Seq::<(u64, bool)>::empty());
         assert(log0 + ok_reads(done) =~= log0);
         assert(done + visit_seq(c, seq![at]) =~= visit(c, at));
@@ -520,7 +883,7 @@ fn search_cir_tree_inner(
 
     proof {
         // reached only after `break`: the work-list is empty
-        assert(iter.remaining_childblocks@ =~= Seq::<u64>::empty());
+        assert(iter.remaining_childblocks@ =~= Seq::<u64>::empty()); 
         assert(blocks@ + Seq::<Block>::empty() =~= blocks@);
         assert(done + Seq::<u64>::empty() =~= done);
     }
